@@ -1,5 +1,6 @@
 import HC.Proofs.Verify
 import HC.Proofs.Complete
+import HC.Proofs.UpgradeComplete
 /-!
 # C03 — any honest proof is accepted and replicas converge to the writer's data
 
@@ -21,8 +22,15 @@ Proved so far:
   along the path), `block_accepted` (the climb over them reaches that ancestor and the comparison with the
   stored node succeeds).
 
-Partial: proofs with a hash, seek or upgrade
-section, and the application step after verification (data offset, commit) are not proved complete;
+* **`honest_first_upgrade_accepted`** (unbounded): first contact — for every non-empty log, every writer state
+  holding it and every replica that knows nothing yet, the writer's answer to "upgrade from 0 to your length"
+  (`create_valueless_proof`: its reference roots, left to right, and its signature) is accepted by the replica's
+  `verify_proof`, which adopts exactly the writer's roots, length and fork.  Both sides walk the full roots of
+  the length with canonical, aligned iterators (`UpgradeSound.fullRoot_canon`), and the greedy walk is the
+  recursive root decomposition (`FullRoots.cover_lt`).
+
+Partial: proofs with a hash or seek section, upgrades from a non-empty replica or to less than the writer's
+length (additional nodes), block + upgrade in one proof, and the application step after verification (data offset, commit) are not proved complete;
 they are validated by the correspondence run — every honest proof (all request orders, partial upgrades
 with additional nodes, seeks, hash sweeps, replica reopen, cleared blocks) must be accepted by the real
 crate and by the model, and the replica must converge.
@@ -93,5 +101,24 @@ example (C : Crypto) (hC : TreeStore.HashWF C) : Complete.Sparse C #[[1, 2, 3]] 
     subst hp
     have hb := TreeStore.nodeAt_not_blank C hC #[[1, 2, 3]] 0 0
     simp [Tree.node?, Flat.index, Std.HashMap.getElem?_insert, hb]
+
+/-- **First contact, upgrade.**  For every log `bs` (shorter than 2^64, non-empty), every writer state holding it
+    (reference roots, reference nodes reachable, a signature that verifies for the reference head) and every
+    replica that knows nothing yet: the writer's answer to the request "upgrade from 0 to your length" is its
+    reference roots and its signature, and the replica's `verify_proof` accepts it, adopting exactly the writer's
+    roots, length and fork. -/
+theorem honest_first_upgrade_accepted (C : Crypto) (bs : Array Bytes) (tw : Tree) (fw : File) (tr : Tree) (fr : File) (pk sig : Bytes)
+    (hT : RefProof.RootsOK C bs tw.changeset) (hNodes : Offsets.NodesOK C bs tw fw) (hN : bs.size < 2 ^ 64) (h0 : 0 < bs.size)
+    (hsig : tw.signature = some sig) (hsl : sig.length = 64)
+    (hver : C.verify pk (RefTree.signableOf C bs tw.fork) sig = true)
+    (hfresh : tr.roots = []) (hflen : tr.length = 0) :
+    ∃ vp cs', tw.createValuelessProof fw none none none (some ⟨0, bs.size⟩) = .ok vp
+      ∧ tr.verifyProof C fr ⟨vp.fork, none, none, none, vp.upgrade⟩ pk = .ok cs'
+      ∧ cs'.roots = RefTree.roots C bs ∧ cs'.length = bs.size ∧ cs'.fork = tw.fork ∧ cs'.signature = some sig := by
+  have hw := UpgradeComplete.create_upgrade_from0 C bs tw fw hT hNodes hN h0 sig hsig
+  obtain ⟨cs', h1, h2, h3, h4, h5⟩ := UpgradeComplete.fresh_upgrade_accepted C bs hN h0 tw.fork pk sig tr.changeset
+    (by simp [Tree.changeset, hfresh]) (by simp [Tree.changeset, hflen]) hsl hver
+  refine ⟨_, cs', hw, ?_, h2, h3, h4, h5⟩
+  simp [Tree.verifyProof, verifyTree, untrustedOf, noSeekOf, h1]
 
 end HC.C03
